@@ -19,6 +19,7 @@ import os
 import random
 
 from run import gen as G, stage, drive
+from run.reports_c14 import PROBE
 from vlib import trace
 
 WORKERS = int(os.environ.get("VERIF_WORKERS") or 16)
@@ -53,6 +54,11 @@ def anchor_programs():
                              ol([([], [["fail"], ["fail"], ["error"]])]), ol([([], [["fail"], ["error"]])])]),
                          ft([sc(["fail"]), ru([sc(["fail"]), sc(["error"]), sc(["pending"])])])], "family": "anchor", "dupnames": True}
     out.append((same, [G.cfg(), G.cfg(cont=True), G.cfg(show_skipped=False)], [[0, 0], [3, 0], [4, 0], [9, 0], [15, 0]]))
+    # outlines with one more Examples table that has a heading row only (no rows): the rows that ran must be the rows counted
+    hdr = {"features": [ft([ol([([], [["pass"], ["fail"]])]), sc(["pass"]), ol([(["t1"], [["error", "pass"]]), ([], [["pass", "pass"], ["undefined", "pass"]])])]),
+                        ft([ru([ol([([], [["fail"], ["pass"]])])], bg=["pass"])])], "family": "anchor", "hdronly": True}
+    out.append((hdr, [G.cfg(), G.cfg(stop=True), G.cfg(cont=True), G.cfg(expr="not_t1")], [[0, 0], [4, 0], [11, 0]]))
+    out.append((dict(hdr, dupnames=True), [G.cfg()], [[0, 0], [6, 0]]))
     return out
 
 
@@ -82,7 +88,7 @@ def make_jobs(chk):
     # position of the multi-feature anchor programs, and every 6th sampled run with a hook fault.
     kbd = set()
     for k, (p, cfgs, faults) in enumerate(anchor_programs()):
-        if len(p["features"]) < 2:
+        if len(p["features"]) < 2 or p.get("hdronly"):
             continue
         nh = G.count_hooks_upper(G.flatten(p))
         for pos in range(1, nh + 1):
@@ -100,14 +106,18 @@ def make_jobs(chk):
             # every other run: all scenarios share one keyword + title (model elements compare equal by keyword and name);
             # the listed scenarios are mapped back by file:line, never by name
             p = dict(p, dupnames=True)
+        if n % 3 == 0:
+            p = dict(p, hdronly=True)       # every outline gets one more Examples table without rows
         job = {"key": [tid, ci, fi], "prog": p, "flat": G.flatten(p), "cfg": c, "fault": f,
                "fault_kind": kind, "reports": True, "plugins": ["c14"]}
         if n % 5:
             # 4 of 5 runs: the summary reporter alone, as in a plain `behave` run.  The JUnit reporter (called before the
             # summary reporter) and the rerun formatter walk every scenario and thereby build the rows of outlines that
             # never ran -- with them switched on the live summary cannot show a reporter that forgets such rows.
-            job["formats"] = []
+            job["formats"] = [PROBE]
             job["extra_args"] = ["--no-junit"]
+        else:
+            job["formats"] = ["json", "plain", "progress2", "progress3", "rerun", PROBE]
         out.append(job)
     return out, total
 
@@ -124,9 +134,13 @@ def run_row(rid, job, row):
         raise RuntimeError("reports_c14.project failed on %s:\n%s" % (job["key"], rep["projection_error"]))
     if "missing" in end["status"]:
         raise RuntimeError("driver lost a model element of %s: %s" % (job["key"], end["status"]))
+    # the scenario objects that actually ran (RunProbe of the plug-in), with the statuses they finally have: the judge
+    # takes them in preference to what a walk of the model shows after the run (an outline may hand out new row objects)
+    ran = rep.get("ran") or {"status": [""] * len(end["status"]), "steps": [[] for _ in end["status"]]}
     return {"id": rid, "prog": slim_prog(job["flat"]),
-            "end": {"status": end["status"], "step_status": end["step_status"], "live_ok": bool(end["ran"] and not end["escaped"])},
-            "c14": rep}
+            "end": {"status": end["status"], "step_status": end["step_status"], "ran_status": ran["status"],
+                    "ran_step_status": ran["steps"], "live_ok": bool(end["ran"] and not end["escaped"])},
+            "c14": {"reps": rep["reps"], "col": rep["col"]}}
 
 
 # ----------------------------------------------------------------------------- explored models on real model objects
@@ -219,7 +233,8 @@ def observe_model(case):
     rep = reports_c14.project(env)
     wanted = [case["status"][order[i] - 1] for i in range(n)]
     pinned = all(a == b or flat["elems"][i]["kind"] == "outline" for i, (a, b) in enumerate(zip(status, wanted)))
-    return flat, {"status": status, "step_status": step_status, "live_ok": False}, rep, pinned
+    return flat, {"status": status, "step_status": step_status, "ran_status": [""] * len(status), "ran_step_status": [[] for _ in status],
+                  "live_ok": False}, rep, pinned
 
 
 # ----------------------------------------------------------------------------- verdicts -> violations
@@ -285,7 +300,7 @@ def run(chk):
         flat, end, rep, pinned = observe_model(c)
         unpinned += 0 if pinned else 1
         rid += 1
-        rows.append({"id": rid, "prog": slim_prog(flat), "end": end, "c14": rep})
+        rows.append({"id": rid, "prog": slim_prog(flat), "end": end, "c14": {"reps": rep["reps"], "col": rep["col"]}})
         meta[rid] = {"input": {"model": {"kind": c["kind"], "children": c["children"], "status": c["status"], "steps": c["steps"]}},
                      "payload": {"kind": "model", "case": c}}
     n_models = len(rows)
@@ -306,7 +321,7 @@ def run(chk):
         rows.append(jr)
         meta[rid] = {"input": {"prog": job["prog"], "cfg": job["cfg"], "fault": job["fault"]},
                      "payload": {"kind": "run", "prog": job["prog"], "cfg": job["cfg"], "fault": job["fault"], "fault_kind": job["fault_kind"],
-                                 "alone": "formats" in job}}
+                                 "alone": "extra_args" in job}}
         kinds = [e["kind"] for e in job["flat"]["elems"]]
         for k, s in zip(kinds, jr["end"]["status"]):
             if k in cover:
@@ -324,7 +339,12 @@ def run(chk):
         classes["untested_remainder"] += "untested" in [s for k, s in zip(kinds, jr["end"]["status"]) if k == "scenario"] and not c["dry"]
         classes["with_rule"] += "rule" in kinds
         classes["with_outline"] += "outline" in kinds
-        classes["summary_reporter_alone"] += "formats" in job
+        classes["hdronly_with_outline_rows_that_ran"] = classes.get("hdronly_with_outline_rows_that_ran", 0) + bool(
+            job["prog"].get("hdronly") and any(
+                e["kind"] == "scenario" and job["flat"]["elems"][e["parent"] - 1]["kind"] == "outline" and jr["end"]["ran_status"][e["id"] - 1]
+                not in ("", "untested", "skipped") for e in job["flat"]["elems"]))
+        classes["runs_where_probe_saw_scenarios"] = classes.get("runs_where_probe_saw_scenarios", 0) + any(jr["end"]["ran_status"])
+        classes["summary_reporter_alone"] += "extra_args" in job
         classes["same_title_scenarios"] += bool(job["prog"].get("dupnames"))
         classes["kbd_in_hook"] += job["fault_kind"] == "kbd" and any(job["fault"])
         classes["kbd_in_hook_live_judged"] += job["fault_kind"] == "kbd" and any(job["fault"]) and jr["end"]["live_ok"]
@@ -335,7 +355,7 @@ def run(chk):
             (plain_sc.count("failed") > 1 or sum(1 for x in plain_sc if x in ("error", "hook_error")) > 1))
         elems = job["flat"]["elems"]
         classes["live_judged_with_never_run_outline"] += bool(
-            jr["end"]["live_ok"] and not c["dry"] and "formats" in job and
+            jr["end"]["live_ok"] and not c["dry"] and "extra_args" in job and
             any(e["kind"] == "outline" and e["children"] and all(jr["end"]["status"][x - 1] == "untested" for x in e["children"]) for e in elems))
         classes["all_skipped"] += all(s == "skipped" for k, s in zip(kinds, jr["end"]["status"]) if k == "feature")
     verdicts = trace.judge_rows(chk, "Summary_Trace", rows, chunks=max(1, min(16, WORKERS)), min_chunk=100)
@@ -396,14 +416,16 @@ def replay(chk, payload):
     rp = payload["replay"]
     if rp["kind"] == "model":
         flat, end, rep, _p = observe_model(rp["case"])
-        row = {"id": 1, "prog": slim_prog(flat), "end": end, "c14": rep}
+        row = {"id": 1, "prog": slim_prog(flat), "end": end, "c14": {"reps": rep["reps"], "col": rep["col"]}}
         inp = {"model": rp["case"]}
     else:
         flat = G.flatten(rp["prog"])
         job = {"key": [1, 1, 1], "prog": rp["prog"], "flat": flat, "cfg": rp["cfg"], "fault": rp["fault"],
                "fault_kind": rp.get("fault_kind", "exc"), "reports": True, "plugins": ["c14"]}
         if rp.get("alone"):
-            job["formats"], job["extra_args"] = [], ["--no-junit"]
+            job["formats"], job["extra_args"] = [PROBE], ["--no-junit"]
+        else:
+            job["formats"] = ["json", "plain", "progress2", "progress3", "rerun", PROBE]
         out = drive.run_case(job, reports=True)
         row = run_row(1, job, out)
         inp = {"prog": rp["prog"], "cfg": rp["cfg"], "fault": rp["fault"]}
